@@ -577,3 +577,66 @@ func lemmaShouldRespondDelta(con *Connection, request *discovery.DeltaDiscoveryR
 	// from the code: dropping names it had also counts as a change and is answered
 	verif.Assert("drops-names-responds", !dropped || respond)
 }
+
+// ---------------------------------------------------------------------------------------------
+// C03: what a delta response removes, and what the server then believes the client holds
+// ---------------------------------------------------------------------------------------------
+
+func sentName(res model.Resources, n int, x string) bool {
+	return verif.Exists(func(i int) bool { return 0 <= i && i < n && i < len(res) && res[i].Name == x })
+}
+
+// From the statement: "Resources that cease to exist are explicitly removed for the delta client, and
+// nothing it still needs is removed." Checked where the response leaves pushDeltaXds, for whatever the
+// generator returned.
+//
+//verif:call-assert (*DiscoveryServer).pushDeltaXds sendDelta 0
+func caDeltaResponseRemovesExactlyWhatCeased(arg1 *discovery.DeltaDiscoveryResponse, arg2 sets.String, w *model.WatchedResource,
+	res model.Resources, deletedRes model.DeletedResources, usedDelta bool, logdata model.XdsLogDetails,
+) bool {
+	removed := arg1.RemovedResources
+	never := neverRemoveDelta(w.TypeUrl)
+	set := shouldSetWatchedResources(w)
+	return (!never || len(removed) == 0) &&
+		// generators that are not delta aware: removed = watched names that were not regenerated
+		(usedDelta || logdata.Incremental || never || verif.Forall(func(x string) bool {
+			return inStrings(removed, len(removed), x) == (hasName(w.ResourceNames, x) && !sentName(res, len(res), x))
+		})) &&
+		// nothing that is sent in this response is removed by it
+		(usedDelta || verif.Forall(func(x string) bool { return !inStrings(removed, len(removed), x) || !sentName(res, len(res), x) })) &&
+		// the server's belief of what the client holds evolves as the client's state does
+		(!set || usedDelta || verif.Forall(func(x string) bool { return hasName(arg2, x) == sentName(res, len(res), x) })) &&
+		(!set || !usedDelta || verif.Forall(func(x string) bool {
+			return hasName(arg2, x) == ((hasName(w.ResourceNames, x) && !inStrings(deletedRes, len(deletedRes), x)) || sentName(res, len(res), x))
+		})) &&
+		(set || arg2 == nil)
+}
+
+// Bookkeeping helpers whose results do not matter for what is removed: their effects are forgotten.
+//
+//verif:opaque (*DiscoveryServer).findGenerator ControlPlane nonce recordPushTime ResourceSize recordSendError
+
+//verif:contract (*DiscoveryServer).pushDeltaXds
+//verif:prop C03
+//verif:nosafety
+func ctPushDeltaXds(s *DiscoveryServer, con *Connection, w *model.WatchedResource, req *model.PushRequest) {
+	verif.Requires("inputs-present", s != nil && con != nil && con.proxy != nil && req != nil && req.Push != nil)
+	_ = s.pushDeltaXds(con, w, req)
+}
+
+//verif:invariant (*DiscoveryServer).pushDeltaXds 1
+func invPushDeltaRemoved(removed sets.String, w *model.WatchedResource, res model.Resources, rangeindex int) bool {
+	return removed != nil && rangeindex < len(res) && !verif.Same(removed, w.ResourceNames) &&
+		verif.Forall(func(x string) bool {
+			return hasName(removed, x) == (hasName(w.ResourceNames, x) && !sentName(res, rangeindex+1, x))
+		})
+}
+
+//verif:invariant (*DiscoveryServer).pushDeltaXds 2
+func invPushDeltaNewNames(newResourceNames sets.String, w *model.WatchedResource, resp *discovery.DeltaDiscoveryResponse, res model.Resources, rangeindex int) bool {
+	rem := resp.RemovedResources
+	return newResourceNames != nil && rangeindex < len(res) && !verif.Same(newResourceNames, w.ResourceNames) &&
+		verif.Forall(func(x string) bool {
+			return hasName(newResourceNames, x) == ((hasName(w.ResourceNames, x) && !inStrings(rem, len(rem), x)) || sentName(res, rangeindex+1, x))
+		})
+}
